@@ -21,7 +21,7 @@ RULE = ("A base case from the planted-structure generator (all cell / pattern / 
 ASSUMPTIONS = ["a difference confined to grey groups (neither clear-in nor clear-out under both runs' hints) is tolerated",
                "supercell sizes are bounded to ~300 atoms in the generated part (cost)"]
 
-XF_KINDS = ["shift", "shift", "permute", "pattern-motion", "hints", "seeds", "replicate", "replicate"]
+XF_KINDS = ["shift", "shift", "permute", "pattern-motion", "pattern-motion", "hints", "seeds", "replicate", "replicate"]
 
 
 @st.composite
@@ -54,7 +54,7 @@ def xf_case(draw):
     elif kind == "permute":
         xf["perm"] = list(draw(st.permutations(range(N))))
     elif kind == "pattern-motion":
-        R, pcls = draw(gen_geom.pose(base["ppos"]))
+        R, pcls = draw(gen_geom.pose(base["ppos"], classes=["axis", "axis", "flip", "random", "random", "near-parallel", "near-antiparallel"]))
         xf["R"] = np.asarray(R).tolist()
         xf["pose"] = pcls
         xf["t"] = [draw(st.floats(-10, 10)) for _ in range(3)]
@@ -340,6 +340,6 @@ def real_oracle(rc, stats):
 
 
 PARTS = [
-    HypPart("metamorphic", lambda tier: xf_case(), oracle, {"quick": 3000, "thorough": 40000}),
+    HypPart("metamorphic", lambda tier: xf_case(), oracle, {"quick": 6000, "thorough": 60000}),
     EnumPart("real-files", real_cases, real_oracle, exhaustive=lambda tier: False, chunk=1),
 ]
